@@ -97,6 +97,10 @@ func c16Foreign(r *Run) {
 		d.FailRead(errInjectedRead)
 		host.hEnd.FailRead(errInjectedRead)
 		host.pEnd.FailRead(errInjectedRead)
-		within(hangTimeout, func() { <-served; <-dserved; host.done.Wait() })
+		// Serve ends with its transport or with Server.Stop (its context argument only parents the handlers' contexts)
+		host.srv.Stop()
+		if !within(hangTimeout, func() { <-served; <-dserved; host.done.Wait() }) {
+			r.Violate("foreign.teardown", "ops", "the proxy, the demultiplexer or a Serve did not end after Stop", nil, goroutineDump(), nil)
+		}
 	}
 }
